@@ -90,6 +90,8 @@ def selectStep : List String → Option String
       | .panic _ => "panic"
       | .fuel => "fuel"
   | ["modes", _, _] => some "ok"
+  | "tj" :: _ => some "ok"     -- C11 master differential: evaluated on the real code alone
+  | ["sniffbig", _] => some "ok"
   | _ => none
 
 end Jsonb.Driver
